@@ -26,3 +26,13 @@ Definition arrival_check (tr : list ev) (i : nat) (c : cmd) : bool :=
                     negb (existsb (Nat.eqb i) (relayed pre))
                     || negb (match open_in pre (c_trace c) with Some p => Z.eqb p (c_prompt c) | None => false end))
           (seq 0 (S (length tr))).
+
+(** Hypothesis that excludes the known finding: whenever a command reaches a
+    trace's queue, the prompt number it carries has already been issued (the
+    prompt counter has passed it) -- no command for a not-yet-open prompt number
+    is ever queued.  [1 + length (opens pre)] is the value of the run-unique
+    prompt counter after the history [pre]. *)
+Definition no_future_queued (tr : list ev) : Prop :=
+  forall pre i post c, tr = pre ++ (Relay, ORelayed i) :: post ->
+                       nth_error (sends tr) i = Some c ->
+                       c_prompt c < 1 + Z.of_nat (length (opens pre)).
